@@ -240,7 +240,7 @@ def m_hasher(I, fr, callee, m, args):
 
 
 # ------------------------------------------------------------------ net
-@model(r'^std::net::Ipv4Addr::(new|octets|from_bits|to_bits)$|^<std::net::Ipv4Addr as From<(u32|\[u8; 4\])>>::from$|^<u32 as From<std::net::Ipv4Addr>>::from$|^<std::net::Ipv4Addr as Into<u32>>::into$|^<u32 as Into<std::net::Ipv4Addr>>::into$')
+@model(r'^(?:std::net::)?Ipv4Addr::(new|octets|from_bits|to_bits)$|^<(?:std::net::)?Ipv4Addr as From<(u32|\[u8; 4\])>>::from$|^<u32 as From<(?:std::net::)?Ipv4Addr>>::from$|^<(?:std::net::)?Ipv4Addr as Into<u32>>::into$|^<u32 as Into<(?:std::net::)?Ipv4Addr>>::into$')
 def m_ipv4(I, fr, callee, m, args):
     from .models import m_from_bytes, m_to_bytes
     if callee.endswith('::new'):
@@ -249,20 +249,20 @@ def m_ipv4(I, fr, callee, m, args):
         return deref_val(I, args[0]).f[0]
     if 'From<[u8; 4]>' in callee:
         return Agg('Ipv4Addr', (args[0],))
-    if callee.startswith('<std::net::Ipv4Addr as From<u32>') or callee.startswith('<u32 as Into<') or callee.endswith('from_bits'):
+    if re.match(r'^<(?:std::net::)?Ipv4Addr as From<u32>', callee) or callee.startswith('<u32 as Into<') or callee.endswith('from_bits'):
         arr = I.do_call(fr, 'core::num::<impl u32>::to_be_bytes', [args[0]])
         return Agg('Ipv4Addr', (arr,))
     v = deref_val(I, args[0])
     return I.do_call(fr, 'core::num::<impl u32>::from_be_bytes', [v.f[0]])
 
 
-@model(r'^std::net::Ipv6Addr::(octets|from_bits|to_bits)$|^<std::net::Ipv6Addr as From<(u128|\[u8; 16\])>>::from$|^<u128 as From<std::net::Ipv6Addr>>::from$|^<std::net::Ipv6Addr as Into<u128>>::into$|^<u128 as Into<std::net::Ipv6Addr>>::into$')
+@model(r'^(?:std::net::)?Ipv6Addr::(octets|from_bits|to_bits)$|^<(?:std::net::)?Ipv6Addr as From<(u128|\[u8; 16\])>>::from$|^<u128 as From<(?:std::net::)?Ipv6Addr>>::from$|^<(?:std::net::)?Ipv6Addr as Into<u128>>::into$|^<u128 as Into<(?:std::net::)?Ipv6Addr>>::into$')
 def m_ipv6(I, fr, callee, m, args):
     if callee.endswith('octets'):
         return deref_val(I, args[0]).f[0]
     if 'From<[u8; 16]>' in callee:
         return Agg('Ipv6Addr', (args[0],))
-    if callee.startswith('<std::net::Ipv6Addr as From<u128>') or callee.startswith('<u128 as Into<') or callee.endswith('from_bits'):
+    if re.match(r'^<(?:std::net::)?Ipv6Addr as From<u128>', callee) or callee.startswith('<u128 as Into<') or callee.endswith('from_bits'):
         arr = I.do_call(fr, 'core::num::<impl u128>::to_be_bytes', [args[0]])
         return Agg('Ipv6Addr', (arr,))
     v = deref_val(I, args[0])
